@@ -4,7 +4,7 @@ tier=${1:-quick}; shift
 ids=${@:-C01 C02 C03 C04 C05 C06 C07 C08 C09 C10 C11 C12 C13 C14 C15 C16 C17 C18 C19 C20}
 rc=0
 for p in $ids; do
-  out=$(/venv/bin/python /verif/vcheck.py $p --tier $tier 2>&1); r=$?
+  out=$(/venv/bin/python "$(dirname "$0")/../vcheck.py" $p --tier $tier 2>&1); r=$?
   echo "$out" | grep -E "^(C[0-9]+ tier|VIOLATION|INCONCLUSIVE|KNOWN-FINDING|  kind)" | cut -c1-300
   [ $r -ne 0 ] && rc=1
 done
